@@ -7,7 +7,7 @@ use hifitime::Epoch;
 use proptest::prelude::*;
 use serde::{Deserialize, Serialize};
 
-pub const RULE: &str = "generated (epoch in one of nine scales, duration/unit/integer-float-seconds, second epoch) with the duration drawn so the result stays representable; oracle = model (scale, count) arithmetic in i128 and the inverse identities compared on to_parts and time_scale; non-trivial = negative count (epoch before its reference), operation crosses a century boundary of the count, crosses a leap entry (UTC), or two different scales are involved; distinct = distinct case tuples (hash set, capped: lower bound)";
+pub const RULE: &str = "generated (epoch in one of nine scales, duration/unit/integer-float-seconds, second epoch) with the duration drawn so the result stays representable; oracle = model (scale, count) arithmetic in i128 and the inverse identities compared on to_parts and time_scale; non-trivial = negative count (epoch before its reference), operation crosses a century boundary of the count, crosses a leap entry (UTC), or two different scales are involved; distinct = distinct case tuples (hash set, capped: lower bound); histories (c04.chain): non-trivial = at least three executed shifts and the history crosses a leap entry (UTC) or a century boundary or goes before the reference epoch";
 
 pub const ASSUMPTIONS: &[&str] = &[
     "an epoch is (scale, count) with count read from epoch.duration.to_parts()",
